@@ -52,8 +52,17 @@
 #ifndef HAS_NEXT
 #define HAS_NEXT 0
 #endif
-#define NLEN 2			/* frame names */
-#define ELEN 2			/* entry names delivered by the wrapped iterators */
+/* string lengths are shape (HOWTO): concrete per case, bytes symbolic */
+#ifndef FLEN
+#define FLEN 2			/* length of every non-root frame name */
+#endif
+#ifndef ELEN
+#define ELEN 2			/* length of the entry names delivered (1: "." possible, 2: ".." possible) */
+#endif
+#define NLEN (FLEN > ELEN ? FLEN : ELEN)	/* room of a frame name: a pushed frame carries an entry name */
+#ifndef ROOT_NAMED
+#define ROOT_NAMED 0	/* 1: the bottom frame carries a name too (cheapest shape with a non-empty stack path) */
+#endif
 #define NFRAMES (DEPTH + 1)	/* frames that can exist: stack + pending */
 #define MAXPATH (NFRAMES * (NLEN + 1) + ELEN + 1)
 #ifndef MAXDOTS
@@ -221,9 +230,8 @@ static int stub_next(sqfs_dir_iterator_t *it, sqfs_dir_entry_t **out)
 	d->e.gid = verif_nd_u64("ent.gid");
 	d->e.mode = verif_nd_u16("ent.mode");
 	d->e.flags = verif_nd_u16("ent.flags");
-	/* a name of 1..ELEN bytes without '/' (single directory level) */
-	len = verif_nd_size("ent.len");
-	VERIF_ASSUME(len >= 1 && len <= ELEN);
+	/* a name of ELEN bytes without '/' (single directory level) */
+	len = ELEN;
 	for (k = 0; k <= ELEN; ++k) {
 		unsigned char c = verif_nd_u8("ent.name");
 
@@ -328,10 +336,13 @@ void *alloc_flex(size_t base_size, size_t item_size, size_t nmemb)
 	struct frame *f;
 
 	VERIF_ASSERT(base_size == sizeof(dir_stack_t) && item_size == 1 &&
-		     nmemb >= 1 && nmemb <= NLEN + 1, "C11.rec.env.alloc_flex_pre");
+		     nmemb == ELEN + 1, "C11.rec.env.alloc_flex_pre");
 	g_flex_called = true;
 	if (verif_nd_bool("alloc_flex.fail")) {
 		g_flex_failed = true;
+#if MODE == 0
+		VERIF_COVER(1);
+#endif
 		return NULL;
 	}
 	f = malloc(sizeof(*f));
@@ -356,12 +367,7 @@ static struct frame *mkframe(int i, struct frame *below)
 
 	VERIF_ASSUME(f != NULL);
 	/* the root frame carries the empty name, the others a component */
-	len = verif_nd_size("frame.len");
-	VERIF_ASSUME(len <= NLEN);
-	if (i == 0)
-		len = 0;
-	else
-		VERIF_ASSUME(len >= 1);
+	len = (i == 0 && !ROOT_NAMED) ? 0 : FLEN;
 	for (k = 0; k <= NLEN; ++k) {
 		unsigned char c = verif_nd_u8("frame.name");
 
@@ -424,23 +430,25 @@ static void setup(void)
 #endif
 }
 
-/* specification: stack path of the first `frames' frames + '/' + name */
-static size_t spec_path(char *dst, int frames, const char *name)
+/* specification: the yielded name when `frames' frames are on the stack =
+ * their names, bottom first, each followed by '/' (the root frame has the
+ * empty name and contributes nothing), then the entry name. All offsets are
+ * concrete for a given number of frames. */
+static bool spec_name_ok(const char *got, int frames)
 {
 	size_t n = 0, k;
+	bool ok = true;
 	int i;
 
-	for (i = 0; i < frames; ++i) {
-		if (g_fname[i][0] == '\0')
-			continue;
-		for (k = 0; k < NLEN && g_fname[i][k] != '\0'; ++k)
-			dst[n++] = g_fname[i][k];
-		dst[n++] = '/';
+	for (i = ROOT_NAMED ? 0 : 1; i < frames; ++i) {
+		for (k = 0; k < FLEN; ++k)
+			ok = ok && got[n + k] == g_fname[i][k];
+		ok = ok && got[n + FLEN] == '/';
+		n += FLEN + 1;
 	}
-	for (k = 0; k < ELEN && name[k] != '\0'; ++k)
-		dst[n++] = name[k];
-	dst[n] = '\0';
-	return n;
+	for (k = 0; k <= ELEN; ++k)
+		ok = ok && got[n + k] == g_last_name[k];
+	return ok;
 }
 
 static void finish(sqfs_dir_entry_t *out)
@@ -463,10 +471,9 @@ static void finish(sqfs_dir_entry_t *out)
 void harness(void)
 {
 	sqfs_dir_entry_t *out = (sqfs_dir_entry_t *)&g_sub[0]; /* garbage */
-	char want[MAXPATH + 1];
 	int state0, ret, frames_now, i;
 	dir_stack_t *s;
-	size_t k, n;
+	size_t k;
 
 	setup();
 	state0 = verif_nd_int("it.state");
@@ -553,9 +560,11 @@ void harness(void)
 		if (!g_ended[i])
 			frames_now = i + 1;
 	}
-	n = spec_path(want, frames_now, g_last_name);
-	for (k = 0; k <= n && k <= MAXPATH; ++k)
-		VERIF_ASSERT(out->name[k] == want[k], "C11.rec.next.name");
+	for (i = 1; i <= DEPTH + HAS_NEXT; ++i) {
+		if (frames_now == i)
+			VERIF_ASSERT(spec_name_ok(out->name, i), "C11.rec.next.name");
+	}
+	VERIF_ASSERT(frames_now >= 1, "C11.rec.next.name");
 	VERIF_ASSERT(out->size == g_last_copy.size && out->mtime == g_last_copy.mtime &&
 		     out->dev == g_last_copy.dev && out->rdev == g_last_copy.rdev &&
 		     out->inode == g_last_copy.inode && out->uid == g_last_copy.uid &&
